@@ -378,6 +378,10 @@ def run_check(prop, tier, base_seed, nworkers=None, extra_path=None, hashseed=0,
             finally:
                 fresh.close()
             if not same_failure(rep, v) or rep.get('digest') != res.get('digest'):
+                os.makedirs(os.path.join(VERIF_DIR, 'replays'), exist_ok=True)
+                with open(os.path.join(VERIF_DIR, 'replays', '%s-nonrepro-%s.json' % (prop, v.get('seed'))), 'w') as f:
+                    json.dump({'property': prop, 'invariant': v['invariant'], 'scenario': scen, 'first': res.get('detail'),
+                               'replay': rep.get('detail')}, f, indent=1, allow_nan=True)
                 errors.append({'status': 'non-reproducing', 'invariant': v['invariant'],
                                'first': res.get('digest'), 'replay': rep.get('digest'),
                                'replay_verdict': rep.get('verdict'), 'replay_invariant': rep.get('invariant')})
@@ -397,7 +401,9 @@ def run_check(prop, tier, base_seed, nworkers=None, extra_path=None, hashseed=0,
     # ---- output
     for kid, hits in sorted(known_hits.items()):
         what = next((k.get('what') for k in known if k.get('id') == kid), '')
-        print('KNOWN-FINDING: property=%s %s: %s (%d scenarios)' % (prop, kid, what, len(hits)))
+        if not quiet:
+            print('KNOWN-FINDING: property=%s %s: %s (%d scenarios; full text in KNOWN_FINDINGS.json)' % (
+                prop, kid, (what[:200] + '...') if len(what) > 200 else what, len(hits)))
     for inv, path, detail in reports:
         print('VIOLATION property=%s replay=%s' % (prop, path))
         print('  invariant=%s detail=%s' % (inv, jdump(detail)[:600]))
